@@ -145,6 +145,17 @@ Example C07_example_fork_overflow :
   s_inputs (nth_slot (slots (run (hash_vis 6) ex_cfg (init 2) (firstn 8 ex_ops))) 1) = [].
 Proof. vm_compute. repeat split; auto; repeat (try (left; reflexivity); right). Qed.
 
+(** non-vacuity of the two slot theorems: with slot 0 in use, the multi-user policy forks its prefix into slot 1; and
+    in the middle of the history above (request 0 finished, its slot idle) a second request is accepted. *)
+Example C07_example_load :
+  exists sl' kv', load_cache_slot ex_cfg 1 [mkSlot [1;2;3] true 1; mkSlot [] false 0]
+                                  [mkCell 0 1 [0%nat]; mkCell 1 2 [0%nat]; mkCell 2 3 [0%nat]] [1;2;9]
+                  = Ok (sl', kv', 1%nat, [9]) /\ view kv' 1 = [(0,1);(1,2)].
+Proof. eexists. eexists. vm_compute. split; reflexivity. Qed.
+Example C07_example_submit :
+  snd (submit ex_cfg (run (hash_vis 6) ex_cfg (init 2) (firstn 3 ex_ops)) [1;2;3;4;5;1] 6 0 []) = RSubmitted 0.
+Proof. vm_compute. reflexivity. Qed.
+
 (** what the repair changed: on the same cache state the pinned reset Remove(seq, 0, -1) leaves the fork's sequence
     populated (its first cell is shared, so the scan stops at once) while slot.Inputs is emptied; the repaired reset
     Remove(seq, 0, math.MaxInt32) empties it. *)
